@@ -108,10 +108,11 @@ Lemma ctr_step_valid_guards : forall st o st' ob,
   ctr_valid (guards st) o = true -> ctr_step st o = (st', ob) ->
   guards st' = guards_after (guards st) o.
 Proof.
-  intros st o st' ob Hv Hs. destruct o as [|g|w|]; cbn [ctr_step ctr_valid] in *.
+  intros st o st' ob Hv Hs. destruct o as [|g|w| |]; cbn [ctr_step ctr_valid] in *.
   - inversion Hs. reflexivity.
   - rewrite Hv in Hs. destruct (counter_dec (inner st)) as [c ws]. inversion Hs. reflexivity.
   - destruct (counter_available (inner st) w) as [c b]. inversion Hs. reflexivity.
+  - inversion Hs. reflexivity.
   - inversion Hs. reflexivity.
 Qed.
 
@@ -119,7 +120,7 @@ Lemma ctr_step_invalid : forall st o,
   ctr_valid (guards st) o = false ->
   exists t, ctr_step st o = (st, CObs CInvalid [] t).
 Proof.
-  intros st o Hv. destruct o as [|g|w|]; cbn [ctr_valid] in Hv; try discriminate.
+  intros st o Hv. destruct o as [|g|w| |]; cbn [ctr_valid] in Hv; try discriminate.
   cbn [ctr_step]. rewrite Hv. eexists. reflexivity.
 Qed.
 
@@ -127,7 +128,7 @@ Lemma ctr_inv_step : forall cap st o,
   ctr_inv cap st -> ctr_inv cap (fst (ctr_step st o)).
 Proof.
   intros cap st o (Hc & Hcap & Ht). unfold ctr_inv.
-  destruct o as [|g|w|]; cbn [ctr_step].
+  destruct o as [|g|w| |]; cbn [ctr_step].
   - cbn [fst inner guards counter_inc count capacity task]. rewrite live_app_true.
     repeat split; [lia|assumption|]. intros H. apply Ht. lia.
   - destruct (alive (guards st) g) eqn:Ha; [|repeat split; assumption].
@@ -140,6 +141,7 @@ Proof.
     destruct (count (inner st) <? capacity (inner st))%N eqn:E; cbn [fst inner guards count capacity task].
     + repeat split; assumption.
     + repeat split; try assumption. intros Hlt. apply N.ltb_ge in E. lia.
+  - repeat split; assumption.
   - repeat split; assumption.
 Qed.
 
@@ -211,7 +213,7 @@ Proof.
   intros st [] o st' ob Hinv Hv Hs.
   exists tt. split; [|rewrite <- (f_equal fst Hs : fst (ctr_step st o) = st'); apply ctr_inv_step; exact Hinv].
   destruct Hinv as (Hc & Hcap & _).
-  destruct o as [|g|w|]; cbn [ctr_step ctr_valid] in *.
+  destruct o as [|g|w| |]; cbn [ctr_step ctr_valid] in *.
   - inversion Hs. subst. unfold avail_f. cbn [c_ret c_total guards_after counter_total counter_inc count andb].
     rewrite live_app_true, Hc.
     replace (N.of_nat (live (guards st)) + 1 =? N.of_nat (S (live (guards st))))%N with true; [reflexivity|].
@@ -227,6 +229,8 @@ Proof.
       unfold counter_total; rewrite ?Hc; rewrite N.eqb_refl; reflexivity.
   - inversion Hs. subst. unfold avail_f, counter_total. cbn [c_ret c_total guards_after andb].
     rewrite Hc, N.eqb_refl. reflexivity.
+  - inversion Hs. subst. unfold avail_f, counter_total. cbn [c_ret c_total guards_after andb].
+    rewrite Hc, N.eqb_refl. reflexivity.
 Qed.
 
 Lemma cwake_holds : forall cap s, cwake_ok cap s (ctr_run cap s) = true.
@@ -239,7 +243,7 @@ Proof.
   assert (Hinv' : ctr_inv cap st').
   { rewrite <- (f_equal fst Hs : fst (ctr_step st o) = st'). apply ctr_inv_step. exact Hinv. }
   destruct Hinv as (Hc & Hcap & _). subst cap.
-  destruct o as [|g|w|]; cbn [ctr_step ctr_valid] in *.
+  destruct o as [|g|w| |]; cbn [ctr_step ctr_valid] in *.
   - inversion Hs. subst. cbn [cwake_f c_wakes]. rewrite discharge_nil.
     eexists. split; [reflexivity|]. split; [exact Hinv'|]. exact Hw.
   - rewrite Hv in Hs. rewrite counter_dec_spec in Hs. rewrite Hc in Hs. inversion Hs. subst.
@@ -257,6 +261,8 @@ Proof.
       intros w0 H0. inversion H0. reflexivity.
   - inversion Hs. subst. cbn [cwake_f c_wakes]. rewrite discharge_nil.
     eexists. split; [reflexivity|]. split; [exact Hinv'|]. exact Hw.
+  - inversion Hs. subst. cbn [cwake_f c_wakes]. rewrite discharge_nil.
+    eexists. split; [reflexivity|]. split; [exact Hinv'|]. exact Hw.
 Qed.
 
 Lemma cwake_only_holds : forall cap s, cwake_only_ok cap s (ctr_run cap s) = true.
@@ -269,7 +275,7 @@ Proof.
   assert (Hinv' : ctr_inv cap st').
   { rewrite <- (f_equal fst Hs : fst (ctr_step st o) = st'). apply ctr_inv_step. exact Hinv. }
   destruct Hinv as (Hc & Hcap & _). subst reg cap.
-  destruct o as [|g|w|]; cbn [ctr_step ctr_valid] in *.
+  destruct o as [|g|w| |]; cbn [ctr_step ctr_valid] in *.
   - inversion Hs. subst. cbn [cwake_only_f c_wakes wakers_eqb].
     eexists. split; [reflexivity|]. split; [exact Hinv'|reflexivity].
   - rewrite Hv in Hs. rewrite counter_dec_spec in Hs. rewrite Hc in Hs. inversion Hs. subst.
@@ -281,6 +287,8 @@ Proof.
     destruct (count (inner st) <? capacity (inner st))%N; inversion Hs; subst;
       cbn [cwake_only_f c_ret c_wakes wakers_eqb];
       (eexists; split; [reflexivity|]; split; [exact Hinv'|reflexivity]).
+  - inversion Hs. subst. cbn [cwake_only_f c_wakes wakers_eqb].
+    eexists. split; [reflexivity|]. split; [exact Hinv'|reflexivity].
   - inversion Hs. subst. cbn [cwake_only_f c_wakes wakers_eqb].
     eexists. split; [reflexivity|]. split; [exact Hinv'|reflexivity].
 Qed.
